@@ -36,6 +36,7 @@ type Contract struct {
 	HasMod     bool
 	Flags      map[string]bool
 	Uses       []string
+	Triggers   [][]*CExpr
 	Yields     string // protocol name (closures)
 	ParamProto map[string]string
 	Pos        string
@@ -46,6 +47,20 @@ type GhostDecl struct {
 	Name string // "wfail" or "List.view"
 	Type string
 	Field bool
+}
+
+// LogicFn is an uninterpreted logical function declared in a contract or trusted spec file.
+type LogicFn struct {
+	Name   string
+	Params []CVar
+	Result string
+}
+
+// Pred is a named, non-recursive contract-language predicate (expanded at its uses).
+type Pred struct {
+	Name   string
+	Params []CVar
+	Body   *Clause
 }
 
 type Protocol struct {
@@ -62,12 +77,15 @@ type ContractSet struct {
 	GlobalInvs []*Clause
 	Ghosts     []*GhostDecl
 	Protocols  map[string]*Protocol
+	Preds      map[string]*Pred
+	Logics     map[string]*LogicFn
+	Axioms     []*Clause
 	Applies    map[string][]string // shared contract name -> function keys
 	Errors     []string
 }
 
 func NewContractSet() *ContractSet {
-	return &ContractSet{ByKey: map[string]*Contract{}, Protocols: map[string]*Protocol{}, Applies: map[string][]string{}}
+	return &ContractSet{ByKey: map[string]*Contract{}, Protocols: map[string]*Protocol{}, Preds: map[string]*Pred{}, Logics: map[string]*LogicFn{}, Applies: map[string][]string{}}
 }
 
 var clauseKW = map[string]bool{
@@ -75,7 +93,7 @@ var clauseKW = map[string]bool{
 	"requires": true, "ensures": true, "invariant": true, "modifies": true, "decreases": true,
 	"helper": true, "inline": true, "pure": true, "nowf": true, "use": true, "protocol": true,
 	"yields": true, "param": true, "contract": true, "applies": true, "opaque": true, "entry": true, "spec": true,
-	"terminal": true, "allocates": true,
+	"terminal": true, "allocates": true, "pred": true, "trigger": true, "logic": true, "axiom": true, "nilrecv": true, "verify": true,
 }
 
 var labelRe = regexp.MustCompile(`^([A-Za-z_][\w']*)\s*(\[[A-Za-z0-9, ]*\])?\s*:`)
@@ -195,6 +213,43 @@ func (cs *ContractSet) ParseContractLines(file string, lines []string, poss []st
 			cs.Protocols[p.Name] = p
 			curProto = p
 			cur = nil
+		case "pred":
+			m := regexp.MustCompile(`^(\w+)\s*\(([^)]*)\)\s*:(.*)$`).FindStringSubmatch(it.rest)
+			if m == nil {
+				cs.Errors = append(cs.Errors, fmt.Sprintf("%s: bad pred %q", it.pos, it.rest))
+				continue
+			}
+			p := &Pred{Name: m[1]}
+			for _, v := range strings.Split(m[2], ",") {
+				f := strings.Fields(strings.TrimSpace(v))
+				if len(f) == 2 {
+					p.Params = append(p.Params, CVar{f[0], f[1]})
+				}
+			}
+			p.Body = addClause("pred", strings.TrimSpace(m[3]), it.pos)
+			cs.Preds[p.Name] = p
+			cur = nil
+			curProto = nil
+		case "logic":
+			m := regexp.MustCompile(`^(\w+)\s*\(([^)]*)\)\s*(.*)$`).FindStringSubmatch(it.rest)
+			if m == nil {
+				cs.Errors = append(cs.Errors, fmt.Sprintf("%s: bad logic declaration %q", it.pos, it.rest))
+				continue
+			}
+			lf := &LogicFn{Name: m[1], Result: strings.TrimSpace(m[3])}
+			for _, v := range strings.Split(m[2], ",") {
+				f := strings.Fields(strings.TrimSpace(v))
+				if len(f) == 2 {
+					lf.Params = append(lf.Params, CVar{f[0], f[1]})
+				}
+			}
+			cs.Logics[lf.Name] = lf
+			cur = nil
+		case "axiom":
+			if c := addClause("axiom", it.rest, it.pos); c != nil {
+				cs.Axioms = append(cs.Axioms, c)
+			}
+			cur = nil
 		case "terminal":
 			if curProto != nil {
 				curProto.Term = addClause("terminal", it.rest, it.pos)
@@ -241,9 +296,22 @@ func (cs *ContractSet) ParseContractLines(file string, lines []string, poss []st
 				}
 				cur.Modifies = append(cur.Modifies, &ModItem{Text: m, Expr: e})
 			}
-		case "helper", "inline", "pure", "nowf", "opaque", "entry", "allocates":
+		case "helper", "inline", "pure", "nowf", "opaque", "entry", "allocates", "nilrecv", "verify":
 			if cur != nil {
 				cur.Flags[it.kw] = true
+			}
+		case "trigger":
+			if cur != nil {
+				var pat []*CExpr
+				for _, m := range splitTop(it.rest) {
+					e, err := ParseCExpr(strings.TrimSpace(m))
+					if err != nil {
+						cs.Errors = append(cs.Errors, fmt.Sprintf("%s: %v", it.pos, err))
+						continue
+					}
+					pat = append(pat, e)
+				}
+				cur.Triggers = append(cur.Triggers, pat)
 			}
 		case "use":
 			if cur != nil {
